@@ -6,6 +6,7 @@ results must agree); small configurations are enumerated exhaustively;
 (c) Algorithm.evaluate_all on batches mixing evaluated and unevaluated solutions with copying evaluators;
 (d) experiment() result filing."""
 import itertools
+import math
 import os
 import pickle
 import sys
@@ -231,6 +232,48 @@ def check_mixed_batches(ctx, rng):
             ctx.case(("mixed", layout, evname), "E" in layout and "U" in layout)
 
 
+def _twin_f(x):
+    return [math.atan2(x[0], -1.0) + x[1], math.copysign(1.0, x[0]) * (1.0 + x[1])]
+
+
+def check_twin_batches(ctx, rng):
+    """batches containing decision vectors that compare equal but are different inputs (0.0 / -0.0), or that are identical:
+    every member is evaluated as itself"""
+    import math as _m
+    from platypus import Problem, Real
+    f = _twin_f
+    p = Problem(2, 2, function=f)
+    p.types[:] = Real(-1, 1)
+    for evname in ("map", "pickle", "thread"):
+        for layout in ([[0.0, 0.5], [-0.0, 0.5]], [[-0.0, 0.25], [0.0, 0.25], [0.0, 0.25]], [[0.0, 0.0], [-0.0, -0.0], [0.0, -0.0], [-0.0, 0.0]],
+                       [[0.5, 0.5], [0.5, 0.5]], [[rng.choice([0.0, -0.0]), rng.choice([0.25, -0.25])] for _ in range(6)]):
+            tr = tracer.Trace()
+            ev, closer = tracer.make_evaluator(evname, tr)
+            alg = DummyAlg(p, evaluator=ev)
+            sols = []
+            for v in layout:
+                s_ = C.Solution(p)
+                s_.variables[:] = list(v)
+                sols.append(s_)
+            r = call(alg.evaluate_all, sols)
+            if closer:
+                closer()
+            inp = {"batch": [[repr(a) for a in v] for v in layout], "evaluator": evname}
+            if isinstance(r, str):
+                ctx.fail("evaluate_all-raises", inp, r, "batch evaluated", "core.Algorithm.evaluate_all")
+                continue
+            for i, (s_, v) in enumerate(zip(sols, layout)):
+                same_vars = all(a == b and _m.copysign(1, a) == _m.copysign(1, b) for a, b in zip(s_.variables, v))
+                if not same_vars:
+                    ctx.fail("variables-changed-by-evaluation", dict(inp, index=i), [repr(a) for a in s_.variables], [repr(a) for a in v], "core.Algorithm.evaluate_all")
+                    break
+                if not s_.evaluated or list(s_.objectives) != f(v):
+                    ctx.fail("objectives-do-not-belong-to-variables", dict(inp, index=i), [s_.evaluated, list(s_.objectives)], [True, f(v)], "core.Algorithm.evaluate_all")
+                    break
+            ctx.case(("twins", evname, repr(layout)), True)
+    ctx.count("twin_batches")
+
+
 def check_experiment(ctx, rng):
     from platypus import NSGAII, GeneticAlgorithm, experiment, DTLZ2, ZDT1
     from concurrent.futures import ThreadPoolExecutor
@@ -271,7 +314,7 @@ def run(ctx, drv):
                            "balancing; exhaustive enumeration of all schedules for small (workers, tasks); random schedules otherwise. "
                            "real pools: thread / apply-async / multiprocessing / process-pool executors with delays reversing the "
                            "completion order, batch sizes {0,1,<workers,>workers}, chunk sizes {None,1,2,n,n+1,0,-1}. mixed batches "
-                           "through Algorithm.evaluate_all; experiment filing. non-trivial = more than one job; distinct by configuration")
+                           "through Algorithm.evaluate_all; experiment filing. non-trivial = more than one job; distinct by configuration + job generators (what experiment() passes) through every evaluator, offspring-style clones and 0.0 / -0.0 twins in evaluate_all batches, experiment() with a pool evaluator, one simulated MPI batch beyond 2^15 tasks")
     reqs, post = [], []
 
     def ask(line, fn):
@@ -338,8 +381,21 @@ def run(ctx, drv):
         for order in itertools.permutations(range(n)):
             ask(f"futures {n} {wlist(order)}", lambda g, n=n: None if g.split()[1:] == ([str(f_task(k)) for k in range(n)] or ["-"])
                 else ctx.disagree("collect(completeAll order) = map run", {"n": n}, [f_task(k) for k in range(n)], g))
+    # ---- one batch beyond 2**15 tasks (message tags are task indices: they must not wrap), judged by the statement only
+    big = 32768 + rng.randrange(3, 40)
+    res_big, log_big, _ = simulate(2, True, big, lambda labels: len(labels) - 1 if len(labels) % 2 else 0)
+    binp = {"workers": 2, "loadbalance": True, "ntasks": big}
+    if isinstance(res_big, str):
+        ctx.fail("mpi-map-fails", binp, res_big, "results in task order", "mpipool.MPIPool.map")
+    elif res_big.get("results") != [f_task(t) for t in range(big)]:
+        got_ = res_big.get("results") or []
+        wrong = [i for i, (a, b) in enumerate(zip(got_, (f_task(t) for t in range(big)))) if a != b][:5]
+        ctx.fail("mpi-results-not-in-task-order", dict(binp, first_wrong_positions=wrong), [got_[i] for i in wrong], [f_task(i) for i in wrong], "mpipool.MPIPool.map")
+    ctx.case(("mpi-big", big), True)
+    ctx.count("mpi_large_batches")
     # ---- (c) (d)
     check_mixed_batches(ctx, rng)
+    check_twin_batches(ctx, rng)
     check_experiment(ctx, rng)
     if drv.ok:
         out = drv.batch(reqs)
